@@ -507,6 +507,9 @@ void BW_MidiSequencer::setLoopsCount(int loops)
     if(loops >= 1)
         loops -= 1; // Internally, loops count has the 0 base
     m_loopCount = loops;
+    // The song that is loaded already plays with the new count, not only after the next rewind
+    m_loop.loopsCount = loops;
+    m_loop.loopsLeft = loops;
 }
 
 void BW_MidiSequencer::setLoopHooksOnly(bool enabled)
